@@ -74,7 +74,7 @@ func init() {
 		groups := difflib.NewMatcher(aLines, bLines).GetGroupedOpCodes(context)
 		// the script the library chose (iall) and its hunks (igroups) are handed to the model, which CHECKS them (a valid
 		// edit script? the hunks of that script?) instead of demanding its own matcher's choice
-		fmt.Fprintf(r.w, "op opcodes a=%s b=%s iall=%s igroups=%s\n", vhex([]byte(a)), vhex([]byte(b)), vGroupsString(all), vGroupsString(groups))
+		fmt.Fprintf(r.w, "op opcodes a=%s b=%s ctx=%d iall=%s igroups=%s\n", vhex([]byte(a)), vhex([]byte(b)), context, vGroupsString(all), vGroupsString(groups))
 		fmt.Fprintf(r.w, "opcodes %d na=%d nb=%d valid=1 hunks=1 all=%s groups=%s\n",
 			r.idx, len(aLines), len(bLines), vGroupsString(all), vGroupsString(groups))
 	}
@@ -94,8 +94,8 @@ func init() {
 		if !o.Colour {
 			irep = vhex([]byte(report))
 		}
-		fmt.Fprintf(r.w, "op diff a=%s b=%s name=%s line=%d colour=%s iall=%s ireport=%s\n",
-			vhex([]byte(a)), vhex([]byte(b)), vhex([]byte(name)), o.Count, vb(o.Colour), vGroupsString(all), irep)
+		fmt.Fprintf(r.w, "op diff a=%s b=%s name=%s line=%d colour=%s ctx=%d iall=%s ireport=%s\n",
+			vhex([]byte(a)), vhex([]byte(b)), vhex([]byte(name)), o.Count, vb(o.Colour), context, vGroupsString(all), irep)
 		empty := "0"
 		if report == "" {
 			empty = "1"
